@@ -11,36 +11,6 @@ registration are one transition of the loop, so no publication can fall between 
 namespace GoSSE.Props.C04
 open GoSSE.Model.Joe GoSSE.Proofs.Joe
 
-theorem dropWhile_ne_of_not_mem (pre : List PubId) (k : PubId) (rest : List PubId) (h : k ∉ pre) :
-    (pre ++ rest).dropWhile (· != k) = rest.dropWhile (· != k) := by
-  induction pre with
-  | nil => rfl
-  | cons x xs ih =>
-    have hx : x ≠ k := fun e => h (by simp [e])
-    have hxs : k ∉ xs := fun e => h (by simp [e])
-    simp [List.dropWhile, hx, ih hxs]
-
-theorem afterID_decomp (pre post : List PubId) (k : PubId) (h : k ∉ pre) : afterID (pre ++ k :: post) k = post := by
-  simp [afterID, dropWhile_ne_of_not_mem pre k _ h, List.dropWhile]
-
-theorem afterID_absent (l : List PubId) (k : PubId) (h : k ∉ l) : afterID l k = [] := by
-  have := dropWhile_ne_of_not_mem l k [] h
-  simp only [List.append_nil] at this
-  simp [afterID, this]
-
-theorem take_drop_split {α} (l : List α) (j a b : Nat) (h1 : j ≤ a) (h2 : a ≤ b) :
-    (l.take b).drop j = (l.take a).drop j ++ (l.take b).drop a := by
-  have e : l.take a = (l.take b).take a := by rw [List.take_take, Nat.min_eq_left h2]
-  rw [e]
-  generalize l.take b = t
-  have := List.take_append_drop a t
-  conv => lhs; rw [← this]
-  by_cases hl : a ≤ t.length
-  · rw [List.drop_append_of_le_length (by simp; omega)]
-  · have h3 : t.length ≤ a := by omega
-    rw [List.take_of_length_le h3, List.drop_of_length_le h3]
-    simp
-
 /-- **Exactly the missed events, then the live ones, no gap, no duplicate, in publish order.**
 If subscription `i` presented the ID of publication `k` and `k` was still held by the replayer when the
 loop accepted the subscription, then — whenever Joe is idle — everything ever sent to `i` (replayed,
